@@ -75,6 +75,7 @@ type pathCase struct {
 	Path  []string `json:"path"`
 	Query string   `json:"query"`
 	Xa    string   `json:"xa"`
+	Ci    bool     `json:"ci"`
 }
 type redirCase struct {
 	Scheme string `json:"scheme"`
@@ -614,6 +615,9 @@ func runAct(casesPath, tracePath string, shard, shards int) {
 				hdr["x-a"] = c.Xa
 			}
 			uri := path
+			if c.Ci { // the request spells the path in upper case (RouteAction.tla Up): a path rule still matches
+				uri = strings.NewReplacer("a", "A", "x", "X", "y", "Y", "z", "Z").Replace(path)
+			}
 			if c.Query != "" {
 				uri += "?" + c.Query
 			}
